@@ -243,13 +243,17 @@ func TestC15(t *testing.T) {
 }
 
 // c15Word checks one header word; returns a signature and detail on a breach.
+var c15Payload = &of.Uint32Message{Data: 0xffff0000}
+
 func c15Word(w uint32) (string, string) {
 	var b [4]byte
 	binary.BigEndian.PutUint32(b[:], w)
 	// unpack into a fresh receiver and into one that held the complement of every bit before (a receiver that is
 	// reused, e.g. the result of a masked lookup, must not keep anything of its previous header)
-	for i, f := range []of.MatchField{{}, {Class: ^uint16(w >> 16), Field: ^uint8(w>>9) & 0x7f, HasMask: w>>8&1 == 0, Length: ^uint8(w)}} {
-		recv := []string{"fresh", "reused"}[i]
+	for i, f := range []of.MatchField{{}, {Class: ^uint16(w >> 16), Field: ^uint8(w>>9) & 0x7f, HasMask: w>>8&1 == 0, Length: ^uint8(w)},
+		// a receiver that carried a complete masked field before (what a masked constructor or a decoded masked TLV leaves)
+		{Class: 1, Field: 3, HasMask: true, Length: 8, Value: c15Payload, Mask: c15Payload}} {
+		recv := []string{"fresh", "reused", "reused-with-payload"}[i]
 		if err := f.UnmarshalHeader(b[:]); err != nil {
 			return "C15|UnmarshalHeader|error", fmt.Sprintf("word %#08x: %v", w, err)
 		}
